@@ -109,6 +109,12 @@ prop(
                  "critical-section acquire/release are no-ops (sequential execution)"],
     timeout={"quick": 900, "thorough": 2400},
     mem_gb=8,
+    cbmc_args=["--unwindset", "memcmp.0:17"],
+    unwind_patterns=[
+        (r"StatusMask as std::iter::FromIterator", 14),   # DcpsStatusCondition::default(): 13 status kinds
+        (r"overflowing_pow", 8),
+        (r"slice_contains|SliceContains", 8),
+    ],
 )
 
 prop(
